@@ -205,3 +205,115 @@ Proof.
     + exists [], (log (nd s)). reflexivity.
     + constructor.
 Qed.
+
+(* ------------------------------------------------------------------ *)
+(* C01_state_is_replay, the three local facts                           *)
+(* ------------------------------------------------------------------ *)
+
+(* (a) apply_entries extends the user state by the replay of exactly what it executed:
+       part of apply_consecutive above. *)
+
+(* (b) serialization captures the user state and the two entries at applied-1 / applied of the
+       same instant *)
+Theorem compact_captures : forall (e : env) (s : S),
+  log_wf (log (nd s)) ->
+  pid (sr (nd s)) = 0 ->
+  let s' := try_compact e s in
+  hist (nd s') = hist (nd s) /\ applied (nd s') = applied (nd s) /\ enabled_ver (nd s') = enabled_ver (nd s) /\
+  log (nd s') = log (nd s) /\
+  (pid (sr (nd s')) = 0 /\ stored (sr (nd s')) = stored (sr (nd s))
+   \/
+   exists sn, pid (sr (nd s')) = 1 /\ stored (sr (nd s')) = Some (Good sn) /\ cur_id (sr (nd s')) = eidx (s_e0 sn) /\
+     s_hist sn = hist (nd s) /\ s_ver sn = enabled_ver (nd s) /\
+     eidx (s_e0 sn) = applied (nd s) - 1 /\ eidx (s_e1 sn) = eidx (s_e0 sn) + 1 /\
+     (exists a b, log (nd s) = a ++ s_e0 sn :: s_e1 sn :: b)).
+Proof.
+  intros e s WF P. cbn zeta. unfold try_compact. rewrite P. cbn [N.eqb negb].
+  match goal with |- context [if ?b then s else _] => destruct b end.
+  { repeat split; auto. }
+  pose proof (log_wf_last _ WF) as LAST.
+  destruct (N.le_gt_cases (first_idx (log (nd s))) (applied (nd s) - 1)) as [LE|GT].
+  - destruct (get_entries_wf (log (nd s)) (applied (nd s) - 1) 2 WF LE) as (G1 & G2 & (a & b & G3 & G4)).
+    destruct (get_entries (log (nd s)) (Some (applied (nd s) - 1)) (Some 2) None) as [|e0 [|e1 r]] eqn:GE.
+    + cbn. repeat split; auto.
+    + cbn. repeat split; auto.
+    + destruct (opt_eqb (Some (eidx e0)) (last_ser_entry (nd s))).
+      * cbn. repeat split; auto.
+      * cbn. repeat split; auto. right. eexists. repeat split; try reflexivity; cbn [s_e0 s_e1 s_hist s_ver].
+        -- destruct G1 as [E0 _]. exact E0.
+        -- destruct G1 as [E0 [E1 _]]. lia.
+        -- exists a, (r ++ b). rewrite G3 at 1. reflexivity.
+  - assert (F : get_entries (log (nd s)) (Some (applied (nd s) - 1)) (Some 2) None = []).
+    { unfold get_entries. destruct (applied (nd s) - 1 <? first_idx (log (nd s))) eqn:E; auto. lia. }
+    rewrite F. cbn. repeat split; auto.
+Qed.
+
+(* (c) loading a dump installs the snapshot's user state, sets applied to the index of its last
+       entry; when the log is cleared it becomes [e0; e1] *)
+Theorem load_dump_installs : forall (e : env) (clear : bool) (s : S) (sn : snapshot),
+  stored (sr (nd s)) = Some (Good sn) ->
+  s_ver sn <= self_ver (nd s) ->
+  let s' := load_dump e clear s in
+  hist (nd s') = s_hist sn /\ enabled_ver (nd s') = s_ver sn /\ applied (nd s') = eidx (s_e1 sn) /\
+  self_ver (nd s') = self_ver (nd s) /\ commit (nd s') = commit (nd s) /\
+  (clear = true -> log (nd s') = [s_e0 sn; s_e1 sn]) /\
+  (* in every case the log now starts with (entries equal to) e0, e1 or is exactly [e0; e1] *)
+  (log (nd s') = [s_e0 sn; s_e1 sn] \/
+   exists a b r, log (nd s') = a :: b :: r /\ entry_eqb a (s_e0 sn) = true /\ entry_eqb b (s_e1 sn) = true /\
+                 exists pre, log (nd s) = pre ++ a :: b :: r).
+Proof.
+  intros e clear s sn ST V. cbn zeta. unfold load_dump. rewrite ST.
+  destruct (self_ver (nd s) <? s_ver sn) eqn:E; [lia|].
+  set (s1 := upd (fun n => n <| hist := s_hist sn |> <| enabled_ver := s_ver sn |>) s).
+  set (s2 := if clear then s1 else _).
+  assert (P2 : hist (nd s2) = s_hist sn /\ enabled_ver (nd s2) = s_ver sn /\ self_ver (nd s2) = self_ver (nd s) /\
+               commit (nd s2) = commit (nd s) /\ others (nd s2) = others (nd s) /\ self (nd s2) = self (nd s) /\
+               (clear = true -> log (nd s2) = log (nd s)) /\
+               exists pre, log (nd s) = pre ++ log (nd s2)).
+  { unfold s2. destruct clear.
+    - repeat split; auto. now exists [].
+    - assert (D : hist (nd s1) = s_hist sn /\ enabled_ver (nd s1) = s_ver sn /\ self_ver (nd s1) = self_ver (nd s) /\
+               commit (nd s1) = commit (nd s) /\ others (nd s1) = others (nd s) /\ self (nd s1) = self (nd s) /\
+               (false = true -> log (nd s1) = log (nd s)) /\ exists pre, log (nd s) = pre ++ log (nd s1)).
+      { repeat split; auto. now exists []. }
+      destruct (get_entries (log (nd s1)) (Some (eidx (s_e0 sn))) (Some 2) None) as [|a [|b [|c r]]]; auto.
+      destruct (entry_eqb a (s_e0 sn) && entry_eqb b (s_e1 sn)); auto.
+      repeat split; auto; try discriminate.
+      cbn. unfold delete_to. destruct (eidx (s_e0 sn) <? first_idx (log (nd s))). + now exists [].
+      + exists (firstn (N.to_nat (eidx (s_e0 sn) - first_idx (log (nd s)))) (log (nd s))).
+        now rewrite firstn_skipn. }
+  destruct P2 as (H1 & H2 & H3 & H4 & H5 & H6 & H7 & (pre & H8)).
+  set (keep := match log (nd s2) with a :: b :: _ => _ | _ => false end).
+  set (s3 := if clear || negb keep then upd _ s2 else s2).
+  set (s4 := upd (fun n => n <| applied := eidx (s_e1 sn) |>) s3).
+  assert (P4 : hist (nd s4) = s_hist sn /\ enabled_ver (nd s4) = s_ver sn /\ applied (nd s4) = eidx (s_e1 sn) /\
+               self_ver (nd s4) = self_ver (nd s) /\ commit (nd s4) = commit (nd s) /\
+               (clear = true -> log (nd s4) = [s_e0 sn; s_e1 sn]) /\
+               (log (nd s4) = [s_e0 sn; s_e1 sn] \/
+                exists a b r, log (nd s4) = a :: b :: r /\ entry_eqb a (s_e0 sn) = true /\ entry_eqb b (s_e1 sn) = true /\
+                              exists pre, log (nd s) = pre ++ a :: b :: r)).
+  { unfold s4, s3. destruct (clear || negb keep) eqn:CK.
+    - cbn. repeat split; auto.
+    - apply orb_false_elim in CK as [-> CK]. apply negb_false_iff in CK.
+      cbn. repeat split; auto; try discriminate. right.
+      unfold keep in CK. destruct (log (nd s2)) as [|a [|b r]]; try discriminate.
+      apply andb_prop in CK as [K1 K2]. exists a, b, r. repeat split; auto. now exists pre. }
+  destruct P4 as (Q1 & Q2 & Q3 & Q4 & Q5 & Q6 & Q7).
+  destruct (dyn (cf e)); [|auto 10].
+  pose proof (view_update_cluster (filter (fun x => negb (self_is x (nd s4))) (s_cluster sn)) s4) as VU.
+  apply view_inv in VU as (_ & _ & _ & U4 & U5 & U6 & U7 & _ & _ & U10 & _).
+  rewrite U4, U5, U6, U7, U10.
+  assert (CM : forall new s0, commit (nd (update_cluster new s0)) = commit (nd s0)).
+  { intros new s0. unfold update_cluster.
+    assert (A : forall l sa, commit (nd (fold_left (fun s a =>
+                 upd (fun n => n <| next_idx := aset a (last_idx (log n) + 1) (next_idx n) |>
+                                  <| match_idx := aset a 0 (match_idx n) |>) (emit (TAdd a) s)) l sa)) = commit (nd sa)).
+    { induction l as [|x l IH]; intros sa; cbn [fold_left]; auto. now rewrite IH. }
+    assert (B : forall l sa, commit (nd (fold_left (fun s r =>
+             emit (TDrop r) (upd (fun n => n <| next_idx := adel r (next_idx n) |>
+                                              <| match_idx := adel r (match_idx n) |>
+                                              <| tconn := sdel r (tconn n) |>) s)) l sa)) = commit (nd sa)).
+    { induction l as [|x l IH]; intros sa; cbn [fold_left]; auto. now rewrite IH. }
+    rewrite A. cbn. now rewrite B. }
+  rewrite CM. auto 10.
+Qed.
